@@ -155,6 +155,46 @@ func c03Engine(c *lab.Ctx) {
 	var wg sync.WaitGroup
 	var mu sync.Mutex
 	tokenN := 0
+	// thorough tier only (it needs more than a minute): requests that carry the timeout header with the value 0 towards an upstream
+	// that never answers. Whatever 0 means for the precedence of timeout sources, SOME timeout completes the request: the longest
+	// candidate is the 60 s default. They run beside the rest of the job and are judged at its end.
+	type zeroT struct {
+		proto string
+		ev    clEvent
+	}
+	var zmu sync.Mutex
+	var zeros []zeroT
+	var zwg sync.WaitGroup
+	if c.Thorough() && c.Batch == 0 {
+		for _, proto := range engineProtos {
+			for _, hdr := range []string{"x-mosn-global-timeout", "x-mosn-try-timeout"} {
+				zwg.Add(1)
+				go func(proto, hdr string) {
+					defer zwg.Done()
+					cl := e.newClient(proto, proto+"-zero-"+hdr)
+					defer cl.close()
+					r := reqFor(proto, "fast", fmt.Sprintf("zero-%s-%s", proto, hdr), "stall")
+					r.Headers = append(r.Headers, [2]string{hdr, "0"})
+					r.Timeout = 80 * time.Second
+					ev := cl.do(r)
+					zmu.Lock()
+					zeros = append(zeros, zeroT{proto + "/" + hdr, ev})
+					zmu.Unlock()
+				}(proto, hdr)
+			}
+		}
+	}
+	defer func() {
+		zwg.Wait()
+		for _, z := range zeros {
+			c.Eval(1)
+			c.Distinct("zero-timeout-header|" + z.proto + "|" + z.ev.Kind)
+			if z.ev.Kind == "open" {
+				c.Violation("bounded-completion", "C03/hang/timeout-header-zero/"+z.proto,
+					fmt.Sprintf("%s: request with a timeout header of 0 towards an upstream that never answers: no response and no reset within 80 s (the longest timeout candidate is the 60 s default)", z.proto), nil)
+			}
+		}
+	}()
 	for _, proto := range engineProtos {
 		for ci := 0; ci < nClients; ci++ {
 			wg.Add(1)
@@ -245,6 +285,7 @@ func c03Engine(c *lab.Ctx) {
 		}
 		ewg.Wait()
 	}
+	zwg.Wait() // the zero-timeout-header requests end by the 60 s default: they must not be mistaken for requests left active
 	books, stable := e.quiesce(10 * time.Second)
 	c.Count("requests", int64(len(e.log.cls)))
 	c.Count("upstream-attempts", int64(len(e.log.ups)))
